@@ -142,13 +142,23 @@ def _inlined(cn, stmt, events_of, unroll, drop, known, depth):
     return out
 
 
+def _versionable(cn, vid):
+    """Is the variable numbered along the path? Reassigned locals / parameters always; with a canonical form that does
+    not inline temporaries (noinline) every local that is not a reference alias (its first and only value is its
+    version 1, defined where it is declared, with the values the other variables have *there*)."""
+    if vid in cn.multi:
+        return True
+    return cn.noinline and vid not in cn.defs and vid not in cn.params and vid in cn.local_ids
+
+
 def _versioner(cn):
-    """Per-path SSA-like numbering of locals that are assigned more than once: `?c` becomes `?c#k` where k counts the
-    assignments to c seen so far on the path, so that tests of different values of one variable are different atoms."""
+    """Per-path SSA-like numbering of locals: `?c` becomes `?c#k` where k counts the assignments to c seen so far on the
+    path, so that tests of different values of one variable are different atoms."""
     import re as _re
     names = set()
+    cn.local_ids = {n["id"] for n in walk(cn.fn.body) if n.get("k") == "Var"}
     for n in walk(cn.fn.body):
-        if n.get("k") == "Var" and n["id"] in cn.multi:
+        if n.get("k") == "Var" and _versionable(cn, n["id"]):
             names.add(cn.lname(n["id"], n["n"]))
     for p in cn.fn.o["params"]:
         if p["id"] in cn.multi:
@@ -160,6 +170,24 @@ def _versioner(cn):
             return text
         return rx.sub(lambda m: m.group(1) + "#%d" % ver[m.group(1)] if m.group(1) in ver else m.group(1), text)
     return names, vtext
+
+
+def _resort_eq(text):
+    """`(A == B)` with its operands in text order (substituting definitions can change which one sorts first)."""
+    if not (text.startswith("(") and text.endswith(")")):
+        return text
+    depth = 0
+    for i, ch in enumerate(text):
+        if ch in "([{":
+            depth += 1
+        elif ch in ")]}":
+            depth -= 1
+        elif depth == 1 and text.startswith(" == ", i):
+            a, b = text[1:i], text[i + 4:-1]
+            if b < a:
+                return "(%s == %s)" % (b, a)
+            return text
+    return text
 
 
 class _PathState:
@@ -189,18 +217,18 @@ class _PathState:
     def alts(self, subs, ver=None):
         if not self.on:
             return subs
-        return [[(self.r(t, ver), p) for t, p in s_] for s_ in subs]
+        return [[(_resort_eq(self.r(t, ver)), p) for t, p in s_] for s_ in subs]
 
     def _name_of(self, eff):
         """(canonical name, variable id) of the whole variable an effect writes, else (None, None)."""
         cn = self.cn
         if eff[0] == "decl":
-            return (cn.lname(eff[1]["id"], eff[1]["n"]), eff[1]["id"]) if eff[1]["id"] in cn.multi else (None, None)
+            return (cn.lname(eff[1]["id"], eff[1]["n"]), eff[1]["id"]) if _versionable(cn, eff[1]["id"]) else (None, None)
         pth = eff[-1]
         if len(pth) == 1 and pth[0][0] == "var":
             if pth[0][1] in cn.params and pth[0][1] in cn.multi:
                 return "$%d" % cn.params[pth[0][1]], pth[0][1]
-            if pth[0][1] in cn.multi:
+            if _versionable(cn, pth[0][1]):
                 return cn.lname(pth[0][1], pth[0][2]), pth[0][1]
         return None, None
 
@@ -215,7 +243,7 @@ class _PathState:
         if self.on and s is not None and s.get("k") == "DeclRefExpr":
             d = s["d"]
             nm = None
-            if d["id"] in self.cn.multi:
+            if d["id"] in self.cn.multi or _versionable(self.cn, d["id"]):
                 nm = ("$%d" % self.cn.params[d["id"]]) if d["id"] in self.cn.params else self.cn.lname(d["id"], d["n"])
             if nm is not None:
                 k = ver0.get(nm, 0)
@@ -241,7 +269,7 @@ class _PathState:
                 for a, pt in zip(cargs, ptypes):
                     if A.mutable_ref(pt):
                         vid = A.declref_id(strip(a, casts=True))
-                        if vid in cn.multi:
+                        if vid is not None and (vid in cn.multi or _versionable(cn, vid)):
                             nm = ("$%d" % cn.params[vid]) if vid in cn.params else cn.lname(vid, strip(a, casts=True)["d"]["n"])
                             if nm in self.vnames:
                                 self.ver[nm] = self.ver.get(nm, 0) + 1
